@@ -5,6 +5,8 @@ import (
 	"fmt"
 	"runtime"
 	"strings"
+
+	"gopkg.in/yaml.v3"
 )
 
 func contains(xs []string, s string) bool {
@@ -71,6 +73,9 @@ func (rt *Runtime) ExecCase(w *World, c *Case) (out CaseOutcome) {
 	cfgText := c.Config
 	if cfgText == "" {
 		cfgText = w.Config
+	}
+	if c.PadDesc > 0 {
+		cfgText = padDescription(cfgText, c.PadDesc)
 	}
 	o := BuildOpts{Format: c.Format, Config: cfgText, Fault: c.Sink, NoSign: c.Sign == "none"}
 	if c.Sign == "callback" {
@@ -163,6 +168,26 @@ func (rt *Runtime) Reference(w *World, format, sign, cfg string, gmp int) (ref *
 		ref.Notes = append(ref.Notes, fmt.Sprintf("unstable reference %s/%s: %s (reported by C07; byte oracle skipped here)", format, sign, firstDiff(ref.F, o2.Res.Bytes)))
 	}
 	return ref, true, nil
+}
+
+// padDescription lengthens the description by n bytes: sweeping n moves every
+// later structure of the package across its block / alignment boundaries.
+func padDescription(cfgText string, n int) string {
+	var m map[string]any
+	if err := yaml.Unmarshal([]byte(cfgText), &m); err != nil {
+		return cfgText
+	}
+	d, _ := m["description"].(string)
+	if d == "" {
+		d = "padded"
+	}
+	first, rest, _ := strings.Cut(d, "\n")
+	first += " " + strings.Repeat("x", n-1)
+	if rest != "" {
+		first += "\n" + rest
+	}
+	m["description"] = first
+	return RenderConfig(m)
 }
 
 func siteOf(trace []int, k int) string {
